@@ -113,7 +113,7 @@ func (c *ConfigStorage) SetConfig(cfg *config.Config) (err error) {
 
 // setWorktreeConfig writes only the delta between the current base config and
 // cfg into config.worktree, leaving the base config file untouched.
-func (c *ConfigStorage) setWorktreeConfig(cfg *config.Config) error {
+func (c *ConfigStorage) setWorktreeConfig(cfg *config.Config) (err error) {
 	baseCfg, err := c.readBaseConfig()
 	if err != nil {
 		return err
